@@ -744,6 +744,130 @@ def case_ws(rng, k, variant):
     return c
 
 
+SANDBOX_LEN = 40
+def case_tightft(rng, k, variant):
+    """TightVNC file-transfer extension registered (security type 16): list / download / upload / create-dir
+    requests with names at the PATH_MAX boundaries (with and without the length of the ftproot), dot-dot
+    components, truncated and oversized fields.  Owned by C19 as far as the filesystem semantics go; here the
+    sanitizers, the watchdog and the witness look at it (no model comparison)."""
+    cfg = rand_cfg(rng, variant)
+    cfg.update(pw=0, ft=0, view=0, bpp=32)
+    c = Case(k, "tightft", cfg)
+    c.extra_cfg = " ext=1"
+    L = SANDBOX_LEN
+    pm = 4096
+    items = [m_version(3, rng.choice([8, 8, 7])), bytes([16])]
+    if rng.random() < 0.9:
+        items.append(bytes([1]))                                  # ClientInit
+    def name_of(n):
+        base = rng.choice([b"/", b"/f1.txt", b"/dir1", b"/dir1/f3", b"/nonexistent", b"/../x", b"/a/../../b", b"relative", b""])
+        if n is None:
+            return base
+        body = (b"/" + b"a" * max(0, n - 1)) if rng.random() < 0.8 else (b"/dir1/" + b"b" * max(0, n - 6))
+        return body[:n]
+    lens = [None, None, None, 1, 255, 256, pm - 2 - L, pm - 1 - L, pm - L, pm - L + 1, pm - 2, pm - 1, pm, pm + 1, 65535]
+    msgs = []
+    for _ in range(rng.choice([1, 2, 4, 7])):
+        t = rng.choice([130, 130, 131, 131, 132, 132, 133, 134, 135, 136, 136, 137, 129])
+        nm = name_of(rng.choice(lens))
+        n = len(nm) if rng.random() < 0.85 else rng.choice([0, 1, len(nm) + 1, 65535])
+        if t in (130, 136):
+            msgs.append(bytes([t, rng.choice([0, 1, 255])]) + be16(n) + nm)
+        elif t in (131, 132):
+            msgs.append(bytes([t, rng.choice([0, 1, 9, 255])]) + be16(n) + be32(rng.choice([0, 1, 0xFFFFFFFF])) + nm)
+        elif t == 133:
+            data = bytes(rng.randrange(256) for _ in range(rng.choice([0, 1, 100, 5000])))
+            rs = len(data) if rng.random() < 0.7 else rng.choice([0, 1, 65535])
+            msgs.append(bytes([133, rng.choice([0, 1])]) + be16(rs) + be16(len(data) if rng.random() < 0.8 else rng.choice([0, 65535])) +
+                        (data if (rs or data) else be32(rng.randrange(1 << 32))))
+        elif t in (134, 135):
+            rsn = bytes(rng.randrange(32, 127) for _ in range(rng.choice([0, 5, 300])))
+            msgs.append(bytes([t, 0]) + be16(len(rsn) if rng.random() < 0.8 else 65535) + rsn)
+        else:
+            msgs.append(bytes([t]) + bytes(rng.randrange(256) for _ in range(rng.randint(0, 12))))
+    emit_stream(rng, c, items, "permsg")
+    c.op("connect A pre")
+    c.op("run A")
+    emit_stream(rng, c, msgs, rng.choice(["permsg", "one", "split"]))
+    if rng.random() < 0.3:
+        c.op("ev A " + rng.choice(["eof", "reset"]))
+    c.op("run A")
+    c.op("update A")
+    c.op("witness")
+    return c
+
+
+def case_extclip(rng, k, variant):
+    """the extended clipboard (negative-length ClientCutText): capability exchange with arbitrary limits, then
+    provide messages whose inflated size field sits on and beyond the 1 MiB limit (incl. zlib bombs that really
+    carry the announced bytes), request / peek / notify, interleaved with plain cut text and SetEncodings that
+    withdraw the capability"""
+    cfg = rand_cfg(rng, variant)
+    cfg.update(utf8=1, pw=0, ft=0, view=int(rng.random() < 0.1))
+    c = Case(k, "extclip", cfg)
+    emit_stream(rng, c, handshake_msgs(rng, cfg, minor=8), "one")
+    c.op("connect A pre")
+    c.op("run A")
+    def ext(body):
+        return m_cut((-len(body)) & 0xFFFFFFFF, body)
+    def provide(fl_bits, recs, trailer=b"\x00\x00\x00", level=6):
+        """recs: list of (announced size, bytes actually in the stream)"""
+        raw = b"".join(be32(sz) + dat for sz, dat in recs) + trailer
+        pay = zlib.compress(raw, level)
+        fl = (1 << 28) | fl_bits
+        steps = []
+        for sz, dat in recs:
+            if sz > (1 << 20):
+                steps.append("%d/0" % sz); break
+            if sz == 0 or len(dat) != sz:
+                steps.append("%d/0" % sz); break
+            steps.append("%d/1" % sz)
+        nbits = bin(fl_bits & 0xFFFF).count("1")
+        c.hints.append("zhint %d %d %d steps:%s" % (fl, len(pay), bsum(pay), ",".join(steps[:nbits])))
+        return ext(be32(fl) + pay)
+    msgs = [m_encodings([ENC[rng.choice(MODEL_ENCS)], ENC["extclip"]])]
+    for _ in range(rng.choice([2, 4, 7])):
+        kind = rng.choice(["caps", "caps", "good", "good", "edge", "big", "bomb", "req", "plain", "withdraw", "multi", "short"])
+        if kind == "caps":
+            fl = (1 << 24) | rng.choice([1, 1, 1 | 2, 1 | 2 | 4 | 8 | 16, 2, 0])
+            n = bin(fl & 0xFFFF).count("1")
+            sizes = [rng.choice([0, 1, 1 << 20, (1 << 20) + 1, 20 << 20, 0x7FFFFFFF, 0xFFFFFFFF]) for _ in range(n)]
+            body = be32(fl) + b"".join(be32(v) for v in sizes)
+            if rng.random() < 0.15:
+                body += be32(7)                       # wrong length -> closed
+            msgs.append(ext(body))
+        elif kind == "good":
+            sz = rng.choice([1, 5, 100, 4097, 70000])
+            msgs.append(provide(1, [(sz, bytes(rng.randrange(32, 127) for _ in range(sz)))], level=rng.choice([1, 6, 9])))
+        elif kind == "edge":
+            sz = rng.choice([(1 << 20) - 1, 1 << 20])
+            msgs.append(provide(1, [(sz, b"E" * sz)]))
+        elif kind == "big":
+            sz = rng.choice([(1 << 20) + 1, (20 << 20), (20 << 20) + 1, 0x7FFFFFFF, 0x80000000, 0xFFFFFFFF])
+            msgs.append(provide(rng.choice([1, 2, 1 | 2]), [(sz, b"xyz" * 10)]))
+        elif kind == "bomb":
+            sz = rng.choice([(1 << 20) + 1, 4 << 20, 16 << 20])
+            msgs.append(provide(1, [(sz, b"A" * sz)], level=9))
+        elif kind == "multi":
+            recs = [(rng.choice([1, 50, 3000]), None) for _ in range(2)]
+            recs = [(sz, bytes(rng.randrange(32, 127) for _ in range(sz))) for sz, _ in recs]
+            msgs.append(provide(1 | 2, recs))
+        elif kind == "req":
+            msgs.append(ext(be32(rng.choice([1 << 25, 1 << 26, 1 << 27]) | rng.choice([0, 1]))))
+        elif kind == "plain":
+            n = rng.choice([0, 3, 100])
+            msgs.append(m_cut(n, bytes(rng.randrange(256) for _ in range(n))))
+        elif kind == "short":
+            msgs.append(ext(bytes(rng.randrange(256) for _ in range(rng.randint(1, 3)))))
+        else:
+            msgs.append(m_encodings([ENC[rng.choice(MODEL_ENCS)]] + ([ENC["extclip"]] if rng.random() < 0.5 else [])))
+    emit_stream(rng, c, msgs, rng.choice(["permsg", "permsg", "one"]))
+    c.op("run A")
+    c.op("update A")
+    c.op("witness")
+    return c
+
+
 _ENC_POOL = None
 def enc_pool():
     """every encoding / pseudo-encoding number defined in rfbproto.h, every value of the level and
@@ -839,6 +963,8 @@ def corpus_cases(k0, variant):
 
 
 def gen_cases(ctx, variant):
+    global SANDBOX_LEN
+    SANDBOX_LEN = len(os.path.realpath(sandbox(ctx)))
     rng = ctx.rng
     quick = ctx.quick()
     cases = corpus_cases(0, variant)
@@ -848,7 +974,8 @@ def gen_cases(ctx, variant):
             (case_slow, 30 if quick else 300), (case_stall, 80 if quick else 1000),
             (case_scale_update, 160 if quick else 2500), (case_clip, 80 if quick else 1200),
             (case_garbage, 100 if quick else 1500), (case_unmodelled, 40 if quick else 600),
-            (case_ws, 90 if quick else 1200), (case_encupd, 160 if quick else 2500)]
+            (case_ws, 90 if quick else 1200), (case_encupd, 160 if quick else 2500),
+            (case_extclip, 90 if quick else 1000), (case_tightft, 70 if quick else 900)]
     sweep_vals = [0, 1, 2, 3, 65534, 65535] if quick else [0, 1, 2, 3, 4, 255, 32768, 65533, 65534, 65535]
     for (W, H) in ([(3, 2)] if quick else [(3, 2), (2, 3), (4, 4)]):
         cases.append(case_clip_sweep(rng, k, variant, sweep_vals, W, H).render())
@@ -1055,7 +1182,7 @@ def check(ctx):
         fails = oracle_case(c, il)
         for f in fails:
             oracle_fail.append((idx, f))
-        if kind not in ("nomodel16", "websocket"):
+        if kind not in ("nomodel16", "websocket", "tightft"):
             d = compare(c, il, ml)
             if d is not None:
                 mismatches.append((idx, d))
